@@ -62,7 +62,7 @@ def _case(draw):
         case = draw(gen.rec_case(max_obj=6, max_sp=5, min_obj=3, min_sp=1, costs="free", labelled=True, max_fam=3,
                                  prescribed_root=False, obj_poly=op, sp_poly=sp,
                                  allow_inconsistent=(group == "poly_ordered")))
-    if draw(st.integers(0, 3)) == 0 and "leaf_syntenies" in case:
+    if gen.chance(draw, 1, 4) and "leaf_syntenies" in case:
         case["costs"] = dict(case["costs"], SEGMENTAL_LOSS=0)
     case["_group"] = group
     return case
